@@ -479,20 +479,40 @@ mod c18 {
         unit_ms: i64,
         e10: i32,
         init_ctor: bool, // use the `init(..)` constructors instead of `default()`
+        /// reads of the current drawdown on the LIVE object between points (spec: ReadCurrent):
+        /// 0 only where the scenario says so, 1 DrawdownGenerator::generate after every point,
+        /// 2 after a pseudo-random subset, 3 the tear sheet's own generate() after a subset
+        /// (asset / instr; it folds into Max / Mean by design, which are no longer judged then)
+        live: u64,
+        salt: u64,
     }
 
     fn variant_of(scn: &Value, seed: u64, vi: u64) -> Variant {
         if let Some(v) = scn.get("variant").filter(|v| v.is_object()) {
-            return Variant { unit_ms: i(v, "unit_ms"), e10: i(v, "e10") as i32, init_ctor: b(v, "init_ctor") };
+            return Variant { unit_ms: i(v, "unit_ms"), e10: i(v, "e10") as i32, init_ctor: b(v, "init_ctor"),
+                             live: v["live"].as_u64().unwrap_or(0), salt: v["salt"].as_u64().unwrap_or(0) };
         }
         Variant {
             unit_ms: UNITS_MS[pick(seed, vi, 1, 4) as usize],
             e10: VSCALES[pick(seed, vi, 2, 3) as usize],
             init_ctor: pick(seed, vi, 3, 2) == 1,
+            live: pick(seed, vi, 4, 4),
+            salt: pick(seed, vi, 5, 1 << 32),
         }
     }
     fn variant_json(v: Variant) -> Value {
-        json!({"unit_ms": v.unit_ms, "e10": v.e10, "init_ctor": v.init_ctor})
+        json!({"unit_ms": v.unit_ms, "e10": v.e10, "init_ctor": v.init_ctor, "live": v.live, "salt": v.salt})
+    }
+    /// which live read follows point k: None | Some(false) generator | Some(true) tear sheet
+    fn read_after(v: Variant, k: usize, flagged: bool) -> Option<bool> {
+        let sub = pick(v.salt, k as u64, 7, 2) == 1;
+        match v.live {
+            1 => Some(false),
+            2 if sub => Some(false),
+            3 if sub => Some(true),
+            _ if flagged => Some(false),
+            _ => None,
+        }
     }
 
     fn dd_json(d: &Drawdown) -> Value {
@@ -513,10 +533,16 @@ mod c18 {
         fin_cur: Value,
         fin_max: Value,
         fin_mean: Option<MeanDrawdown>,
+        /// what a live read just returned
+        read_cur: Option<Value>,
+        /// a live tear-sheet generate() has folded the current drawdown into Max / Mean
+        folded: bool,
     }
 
     trait Sut {
         fn add(&mut self, k: usize, t: i64, v: Decimal) -> Result<Seen, String>;
+        /// READ the current drawdown on the live object (`sheet`: through the tear sheet's generate())
+        fn read(&mut self, sheet: bool) -> Result<Seen, String>;
     }
 
     fn seen_of(g: &DrawdownGenerator, emitted: Option<Value>, max: &MaxDrawdownGenerator, mean: &MeanDrawdownGenerator,
@@ -531,6 +557,8 @@ mod c18 {
             fin_cur: opt_dd(fin.0.as_ref()),
             fin_mean: fin.1,
             fin_max: opt_dd(fin.2.as_ref().map(|m| &m.0)),
+            read_cur: None,
+            folded: false,
         }
     }
 
@@ -566,6 +594,18 @@ mod c18 {
                     catch(|| { self.mean.update(dd); self.max.update(dd); })?;
                 }
             }
+            self.seen(Some(opt_dd(emitted.as_ref())))
+        }
+        fn read(&mut self, _sheet: bool) -> Result<Seen, String> {
+            let g = self.g.as_mut().ok_or("read before the first point")?;
+            let got = catch(|| g.generate())?;
+            let mut s = self.seen(None)?;
+            s.read_cur = Some(opt_dd(got.as_ref()));
+            Ok(s)
+        }
+    }
+    impl Raw {
+        fn seen(&self, emitted: Option<Value>) -> Result<Seen, String> {
             let g = self.g.as_ref().unwrap();
             // one generate(): fold the current drawdown into copies of Max / Mean
             let (mut fmax, mut fmean) = (self.max.clone(), self.mean.clone());
@@ -573,7 +613,7 @@ mod c18 {
             if let Some(c) = &cur {
                 catch(|| { fmean.update(c); fmax.update(c); })?;
             }
-            Ok(seen_of(g, Some(opt_dd(emitted.as_ref())), &self.max, &self.mean, (cur, fmean.generate(), fmax.generate())))
+            Ok(seen_of(g, emitted, &self.max, &self.mean, (cur, fmean.generate(), fmax.generate())))
         }
     }
 
@@ -581,6 +621,8 @@ mod c18 {
     struct AssetSut {
         g: Option<TearSheetAssetGenerator>,
         init_ctor: bool,
+        folded: bool,
+        bal: Option<Balance>,
     }
     impl Sut for AssetSut {
         fn add(&mut self, _k: usize, t: i64, v: Decimal) -> Result<Seen, String> {
@@ -593,16 +635,36 @@ mod c18 {
                     catch(|| g.update_from_balance(Snapshot(&ab)))?;
                 }
             }
+            self.bal = Some(bal);
+            self.seen()
+        }
+        fn read(&mut self, sheet: bool) -> Result<Seen, String> {
+            let g = self.g.as_mut().ok_or("read before the first point")?;
+            let got = if sheet {
+                self.folded = true;
+                catch(|| g.generate())?.drawdown
+            } else {
+                catch(|| g.drawdown.generate())?
+            };
+            let mut s = self.seen()?;
+            s.read_cur = Some(opt_dd(got.as_ref()));
+            Ok(s)
+        }
+    }
+    impl AssetSut {
+        fn seen(&self) -> Result<Seen, String> {
             let g = self.g.as_ref().unwrap();
-            if g.balance_now != Some(bal) {
-                return Err(format!("balance_now is {:?} after balance {bal:?}", g.balance_now));
+            if g.balance_now != self.bal {
+                return Err(format!("balance_now is {:?} after balance {:?}", g.balance_now, self.bal));
             }
             let mut once = g.clone();
             let sheet = catch(|| once.generate())?;
-            if sheet.balance_end != Some(bal) {
-                return Err(format!("balance_end is {:?} after balance {bal:?}", sheet.balance_end));
+            if sheet.balance_end != self.bal {
+                return Err(format!("balance_end is {:?} after balance {:?}", sheet.balance_end, self.bal));
             }
-            Ok(seen_of(&g.drawdown, None, &g.drawdown_max, &g.drawdown_mean, (sheet.drawdown, sheet.drawdown_mean, sheet.drawdown_max)))
+            let mut s = seen_of(&g.drawdown, None, &g.drawdown_max, &g.drawdown_mean, (sheet.drawdown, sheet.drawdown_mean, sheet.drawdown_max));
+            s.folded = self.folded;
+            Ok(s)
         }
     }
 
@@ -610,6 +672,7 @@ mod c18 {
     struct InstrSut {
         g: TearSheetGenerator,
         prev: Decimal,
+        folded: bool,
     }
     impl Sut for InstrSut {
         fn add(&mut self, k: usize, t: i64, v: Decimal) -> Result<Seen, String> {
@@ -630,10 +693,28 @@ mod c18 {
             if self.g.pnl_returns.pnl_raw != v {
                 return Err(format!("PnL curve value is {} instead of {v}", self.g.pnl_returns.pnl_raw));
             }
+            self.seen()
+        }
+        fn read(&mut self, sheet: bool) -> Result<Seen, String> {
+            let got = if sheet {
+                self.folded = true;
+                catch(|| self.g.generate(Decimal::ZERO, Daily))?.pnl_drawdown
+            } else {
+                catch(|| self.g.pnl_drawdown.generate())?
+            };
+            let mut s = self.seen()?;
+            s.read_cur = Some(opt_dd(got.as_ref()));
+            Ok(s)
+        }
+    }
+    impl InstrSut {
+        fn seen(&self) -> Result<Seen, String> {
             let mut once = self.g.clone();
             let sheet = catch(|| once.generate(Decimal::ZERO, Daily))?;
-            Ok(seen_of(&self.g.pnl_drawdown, None, &self.g.pnl_drawdown_max, &self.g.pnl_drawdown_mean,
-                       (sheet.pnl_drawdown, sheet.pnl_drawdown_mean, sheet.pnl_drawdown_max)))
+            let mut s = seen_of(&self.g.pnl_drawdown, None, &self.g.pnl_drawdown_max, &self.g.pnl_drawdown_mean,
+                                (sheet.pnl_drawdown, sheet.pnl_drawdown_mean, sheet.pnl_drawdown_max));
+            s.folded = self.folded;
+            Ok(s)
         }
     }
 
@@ -687,12 +768,20 @@ mod c18 {
         if let Some(em) = &s.emitted {
             json_match(&exp_dd(&exp["emitted"], u), em, "emitted")?;
         }
-        json_match(&exp_dd(&exp["cur"], u), &s.cur, "current")?;
-        json_match(&exp_dd(&exp["max"], u), &s.max, "max")?;
-        check_mean(&exp["mean"], &s.mean, s.count, u, "mean")?;
-        json_match(&exp_dd(&exp["cur"], u), &s.fin_cur, "generate().drawdown")?;
-        json_match(&exp_dd(&exp["fin_max"], u), &s.fin_max, "generate().drawdown_max")?;
-        check_mean(&exp["fin_mean"], &s.fin_mean, None, u, "generate().drawdown_mean")?;
+        if let Some(r) = &s.read_cur {
+            json_match(&exp_dd(&exp["cur"], u), r, "read of the current drawdown")?;
+        }
+        let after = if s.read_cur.is_some() { " after the read" } else { "" };
+        json_match(&exp_dd(&exp["cur"], u), &s.cur, &format!("current{after}"))?;
+        json_match(&exp_dd(&exp["cur"], u), &s.fin_cur, &format!("generate().drawdown{after}"))?;
+        if s.folded {
+            // a live tear-sheet generate() folded the current drawdown into Max / Mean (by design)
+            return Ok(());
+        }
+        json_match(&exp_dd(&exp["max"], u), &s.max, &format!("max{after}"))?;
+        check_mean(&exp["mean"], &s.mean, s.count, u, &format!("mean{after}"))?;
+        json_match(&exp_dd(&exp["fin_max"], u), &s.fin_max, &format!("generate().drawdown_max{after}"))?;
+        check_mean(&exp["fin_mean"], &s.fin_mean, None, u, &format!("generate().drawdown_mean{after}"))?;
         Ok(())
     }
 
@@ -740,8 +829,8 @@ mod c18 {
     fn new_sut(mode: &str, init_ctor: bool) -> Box<dyn Sut> {
         match mode {
             "raw" => Box::new(Raw { g: None, max: Default::default(), mean: Default::default(), init_ctor }),
-            "asset" => Box::new(AssetSut { g: None, init_ctor }),
-            "instr" => Box::new(InstrSut { g: TearSheetGenerator::init(time_ms(0)), prev: Decimal::ZERO }),
+            "asset" => Box::new(AssetSut { g: None, init_ctor, folded: false, bal: None }),
+            "instr" => Box::new(InstrSut { g: TearSheetGenerator::init(time_ms(0)), prev: Decimal::ZERO, folded: false }),
             m => usage(&format!("unknown mode {m}")),
         }
     }
@@ -751,25 +840,38 @@ mod c18 {
     pub fn record(args: &Args) {
         let mut out = Out::create(args.req("out"));
         let mut curves = 0u64;
-        let emit = |out: &mut Out, mode: &str, ic: bool, k: usize, sut: &mut Box<dyn Sut>, t: i64, v: i64| -> bool {
+        let emit = |out: &mut Out, mode: &str, ic: bool, k: usize, sut: &mut Box<dyn Sut>, t: i64, v: i64, read: bool| -> bool {
             let post = match sut.add(k, t * TRACE_UNIT_MS, Decimal::from(v)) {
                 Ok(s) => post_line(&s),
                 Err(p) => json!({"panic": p}),
             };
-            let ok = post.get("panic").is_none();
+            let mut ok = post.get("panic").is_none();
             out.line(&json!({"a": "AddPoint", "mode": mode, "ic": ic as u8, "t": t, "v": v, "post": post}));
+            if ok && read {
+                // a READ on the live generator: `cur` is what the read returned, `fin_cur` what is shown after it
+                let post = match sut.read(false) {
+                    Ok(s) => {
+                        let mut p = post_line(&s);
+                        p["cur"] = dd_line(s.read_cur.as_ref().unwrap(), true);
+                        p
+                    }
+                    Err(p) => json!({"panic": p}),
+                };
+                ok = post.get("panic").is_none();
+                out.line(&json!({"a": "Read", "mode": mode, "ic": ic as u8, "t": 0, "v": 0, "post": post}));
+            }
             ok
         };
         if args.cmd == "points" {
             let mode = args.str("mode", "raw");
             let pts = read_ndjson(args.req("in"));
-            let pts = pts[0].as_array().unwrap_or_else(|| usage("--in: one JSON array of [t, v]"));
+            let pts = pts[0].as_array().unwrap_or_else(|| usage("--in: one JSON array of [t, v] or [t, v, 1] (1 = read after the point)"));
             let ic = args.u64("init_ctor", 0) == 1;
             let mut sut = new_sut(&mode, ic);
             out.line(&json!({"a": "Reset", "mode": mode, "ic": ic as u8, "t": 0, "v": 0, "post": empty_post()}));
             curves = 1;
             for (k, p) in pts.iter().enumerate() {
-                if !emit(&mut out, &mode, ic, k, &mut sut, p[0].as_i64().unwrap(), p[1].as_i64().unwrap()) {
+                if !emit(&mut out, &mode, ic, k, &mut sut, p[0].as_i64().unwrap(), p[1].as_i64().unwrap(), p.get(2).and_then(|x| x.as_i64()) == Some(1)) {
                     break;
                 }
             }
@@ -786,7 +888,7 @@ mod c18 {
                 let len = r.random_range(1..=14);
                 let (mut t, mut peak, mut prev) = (0i64, 0i64, 0i64);
                 for k in 0..len {
-                    t += r.random_range(1..=4);
+                    t += r.random_range(0..=4); // equal consecutive times are legitimate
                     // bias towards the interesting points: back to the peak exactly, repeat, just above
                     let v = match r.random_range(0..10) {
                         0 | 1 if peak > 0 => peak,
@@ -797,7 +899,8 @@ mod c18 {
                     peak = peak.max(v);
                     prev = v;
                     n += 1;
-                    if !emit(&mut out, mode, ic, k, &mut sut, t, v) {
+                    let read = r.random_range(0..3) == 0;
+                    if !emit(&mut out, mode, ic, k, &mut sut, t, v, read) {
                         break;
                     }
                 }
@@ -814,6 +917,7 @@ mod c18 {
         let mut res = Results::new(args.req("out"));
         let mut by_mode = serde_json::Map::new();
         let (mut emitted_seen, mut current_seen, mut ties_seen) = (0u64, 0u64, 0u64);
+        let (mut reads, mut equal_times) = (0u64, 0u64);
         for (n, scn) in scenarios.iter().enumerate() {
             let vi = vidx(scn, n);
             let var = variant_of(scn, seed, vi);
@@ -822,22 +926,22 @@ mod c18 {
                 if only.as_deref().is_some_and(|m| m != mode) {
                     continue;
                 }
-                let mut sut: Box<dyn Sut> = match mode {
-                    "raw" => Box::new(Raw { g: None, max: Default::default(), mean: Default::default(), init_ctor: var.init_ctor }),
-                    "asset" => Box::new(AssetSut { g: None, init_ctor: var.init_ctor }),
-                    _ => Box::new(InstrSut { g: TearSheetGenerator::init(time_ms(0)), prev: Decimal::ZERO }),
-                };
+                let mut sut = new_sut(mode, var.init_ctor);
                 let mut failure = None;
                 let mut pre = json!("initial");
                 for (k, p) in pts.iter().enumerate() {
                     res.steps += 1;
                     let exp = &p["exp"];
                     let val = scaled_dec(i(p, "v"), var.e10);
-                    let r = sut.add(k, i(p, "t") * var.unit_ms, val).and_then(|s| {
-                        let shown = json!({"peak": s.peak.map(|(p, t)| json!([p.to_string(), t])), "cur": s.cur, "max": s.max,
+                    let flagged = p.get("read").and_then(|x| x.as_bool()).unwrap_or(false);
+                    let show = |s: &Seen| json!({"peak": s.peak.map(|(p, t)| json!([p.to_string(), t])), "cur": s.cur, "max": s.max,
                             "mean": s.mean.as_ref().map(|m| json!([m.mean_drawdown.to_string(), m.mean_drawdown_ms]))});
-                        check_step(exp, &s, var).map(|_| shown)
-                    });
+                    let mut r = sut.add(k, i(p, "t") * var.unit_ms, val).and_then(|s| check_step(exp, &s, var).map(|_| show(&s)));
+                    if let (Ok(_), Some(sheet)) = (&r, read_after(var, k, flagged)) {
+                        // ReadCurrent: reading the live object must return the current drawdown and change nothing
+                        reads += 1;
+                        r = sut.read(sheet).and_then(|s| check_step(exp, &s, var).map(|_| show(&s)));
+                    }
                     match r {
                         Ok(shown) => pre = shown,
                         Err(e) => {
@@ -846,6 +950,7 @@ mod c18 {
                         }
                     }
                     if mode == "raw" {
+                        equal_times += (k > 0 && pts[k - 1]["t"] == p["t"]) as u64;
                         emitted_seen += (exp["emitted"] != "none") as u64;
                         current_seen += (exp["cur"] != "none") as u64;
                         ties_seen += exp["fin_max"].get("anyOf").and_then(|a| a.as_array()).is_some_and(|a| a.len() > 1) as u64;
@@ -865,7 +970,8 @@ mod c18 {
         let (scn, failed, steps) = (res.scenarios, res.failed, res.steps);
         res.out.finish();
         println!("{}", json!({"scenarios": scn, "failed": failed, "points": steps, "runs_by_mode": by_mode,
-            "arm_hits": {"point_completes_a_drawdown": emitted_seen, "drawdown_in_progress": current_seen, "max_tie": ties_seen}}));
+            "arm_hits": {"point_completes_a_drawdown": emitted_seen, "drawdown_in_progress": current_seen, "max_tie": ties_seen,
+                         "live_read": reads, "equal_consecutive_times": equal_times}}));
     }
 }
 
